@@ -3,13 +3,14 @@ import json
 import re
 
 from ..common import Check, coq_eval, coq_codes, harness
-from ..translate import gen_sites
+from ..translate import gen_c13_span
 from .c13_templates import TEMPLATES, parse_template, interp_templates
 
 TRUSTED = [
     "Coq 8.16.1 kernel (coqc, vm_compute); no axioms: every theorem is 'Closed under the global context'",
-    "translator vplib/translate/gen_sites.py (text pins of composed/compose_location/convert_lexer_error/parse_lr_to_pr/interpolation rebasing/Display for Reason/SourceTree::new; fail closed)",
-    "Model/Span.v is a hand restatement of those functions and of ariadne-0.5.1 Source::from/get_offset_line; it is run against the implementation (harness linecol, compile, c13lex, c13tree) on every run",
+    "translator vplib/translate/gen_c13_span.py (text pins of composed/compose_location/From<Error> for ErrorMessage/SourceTree::single,new,From<S>/prql_to_tokens/lex_source_recovery/parse_source/load_std_lib/convert_lexer_error/parse_lr_to_pr/Add<usize> for Span/interpolation()/interpolation rebasing/Display for Reason/WithErrorInfo for Error/Resolver::fold_function; fail closed)",
+    "Model/Span.v is a hand restatement of those functions and of ariadne-0.5.1 Source::from/get_offset_line/Label::new's assert; it is run against the implementation (harness linecol, compile, c13lex, c13tree, c13compose) on every run",
+    "Resolver::fold_function's re-spanning (respan_std) is tied by its text pin and by the end-to-end templates only (the resolver is not reachable in isolation without a hook)",
     "chumsky's byte spans for &str input and token-index spans for &[Token] input (hypotheses `boundary`, `toks_okb` of the theorems; observed through the lexer's token spans, not proved)",
     "ariadne's report rendering is not modelled: `display quotes the line` is checked as text containment by the oracle only",
     "python oracle: UAX#14 mandatory breaks (CR LF CRLF VT FF NEL LS PS) define lines; written from the standard, independent of the model",
@@ -214,9 +215,25 @@ def check_message(e, files_by_id, want_tok=None, want_off=None):
     return bad, info
 
 
+def model_composed(v):
+    """parsed value of `flat_composed (composed_one ..)` -> "PANIC" | (span dict | None, location dict | None)"""
+    if v == "Panic":
+        return "PANIC"
+    if not (isinstance(v, tuple) and v[0] == "Ret"):
+        return ("?", str(v))
+    osp, ol = v[1]
+    sp = None if osp == "None" else {"start": osp[1][0], "end": osp[1][1], "source_id": osp[1][2]}
+    if ol == "None":
+        loc = None
+    else:
+        x = ol[1]
+        loc = {"start": [x[0], x[1]], "end": list(x[2])}
+    return (sp, loc)
+
+
 def run():
     ck = Check("C13", level="proof")
-    ginfo = gen_sites.generate()
+    ginfo = gen_c13_span.generate()
     pr = ck.prove()
     model_ok = True     # Model/Span.vo does not depend on Gen/: the model stays executable when the translator fails closed
     rng = ck.rng
@@ -225,7 +242,10 @@ def run():
 
     # ---------------------------------------------------------------- 1. Span.v: lines / get_offset_line vs ariadne
     header = ("From Coq Require Import List NArith.\nFrom PV Require Import Model.Checked Model.Span.\n"
-              "Import ListNotations.\n")
+              "Import ListNotations.\n"
+              "Definition flat_sp (o : option span) := match o with Some x => Some (sp_start x, sp_end x, sp_src x) | None => None end.\n"
+              "Definition flat_composed (r : out (option span * option location)) := bind r (fun p => Ret (flat_sp (fst p), snd p)).\n"
+              "Definition flat_lexerr (r : out (option span * option location * list N)) := bind r (fun p => Ret (flat_sp (fst (fst p)), snd (fst p), snd p)).\n")
     lc_alpha = ["a", "b", " ", "é", "€", "\U0001F600", "\n", "\r", "\r\n", "\n", "\r\n", "\x0b", "\x0c", "\x85", "\u2028", "\u2029"]
     srcs = ["", "\n", "\r\n", "\r", "a", "a\n", "a\r\nb", "\r\r\n\n", "a\u2028b\u2029", "\n\n\n", "\r\n\r\n", "ab\r"]
     for _ in range(ck.n(90, 600)):
@@ -295,7 +315,7 @@ def run():
                 main_path, err = [], "Project.prql"
             else:
                 files = [["Project.prql", other], ["m.prql", c["src"]]]
-                main_path, err = ["m"], "m.prql"
+                main_path, err = ["m", "main"], "m.prql"
             if rng.random() < 0.5:
                 files.reverse()
             d = dict(c)
@@ -326,9 +346,9 @@ def run():
                 return "F9-byte-spans-read-as-chars"
             return None
         clauses = set(case.get("clauses", []))
-        if "span-names-no-file" in clauses:
-            # narrow: the message has the foreign span and NOTHING else wrong (in particular no location / excerpt)
-            return "C13-N2-span-into-std" if (clauses == {"span-names-no-file"} and t.get("known") == "std-span") else None
+        if "span-names-no-file" in clauses or "location-for-foreign-span" in clauses or "wrong-file" in clauses:
+            # C13-N2 (span into std.prql) was repaired by 7cb9d46: a span that names no file of the tree is a violation
+            return None
         if t.get("known") == "interp-rebase" and clauses <= {"slice-not-found-token", "span-not-offending-token", "location-not-position", "display-misses-line", "out-of-bounds", "no-location", "no-display"}:
             # either the pure rebasing defect (ASCII) or rebasing + F9
             return "C13-N1-interp-span-rebase"
@@ -367,9 +387,17 @@ def run():
             err_file_ok = True
             if c["multi"] and e.get("span") is not None and primary:
                 ids = a.get("ids") or {}
-                if ids.get(str(e["span"]["source_id"])) != c["multi"]["err_file"] and t.get("known") != "std-span":
+                if ids.get(str(e["span"]["source_id"])) != c["multi"]["err_file"]:
                     err_file_ok = False
             bad, bi = check_message(e, c["files_by_id"], want_tok, c["off"] if want_tok is not None else None)
+            if primary:
+                ck.stat("oracle", "primary-span:" + ("none" if e.get("span") is None else "some") + (",template-nospan" if t.get("nospan") else ""))
+                if e.get("span") is None and not t.get("nospan"):
+                    # the template was calibrated with a span that points at the marked text: an error that lost its span
+                    # is no longer located in the source (and would pass every "if it carries a span" clause vacuously)
+                    ck.stat("oracle", "failed:primary-error-lost-its-span")
+                    ck.disagreement("error %r carries no span; on the calibrated tree it points at %r" % ((e.get("reason") or "")[:80], c["tok"]),
+                                    dict(base, kind="clauses", clauses=["primary-error-lost-its-span"], details=[""], reason=e.get("reason"), span=None, location=e.get("location")), classify)
             if not err_file_ok:
                 bad.append(("wrong-file", "span names %s, the error is in %s" % ((a.get("ids") or {}).get(str(e["span"]["source_id"])), c["multi"]["err_file"])))
             if e.get("span") is not None:
@@ -382,6 +410,34 @@ def run():
                 ck.disagreement("error %r: %s" % ((e.get("reason") or "")[:80], "; ".join("%s (%s)" % b for b in bad)[:300]), d, classify)
             elif len(ck.coverage["samples"]) < 8 and c["pcls"] not in ("none", "ascii") and e.get("span"):
                 ck.sample({"src": c["src"], "reason": e["reason"][:80], "span": e["span"], "location": e["location"], "multi": bool(c["multi"])})
+
+    # ---------------------------------------------------------------- 2b. the same clauses for `prql_to_tokens` (prqlc lex)
+    # d650e1d: its errors are composed against the one-file tree (source id 1): span, location and excerpt like compile's
+    seen_lex = set()
+    for c in cases:
+        if c["lex_ok"] or c["src"] in seen_lex:
+            continue
+        seen_lex.add(c["src"])
+        t = tpls[c["ti"]]
+        l = c["lex"]
+        ck.count("lex-oracle", c["src"])
+        base = {"src": c["src"], "template": t["raw"], "class": c["cls"], "prefix": c["pcls"], "placement": c["how"], "entry": "prql_to_tokens"}
+        if "err" not in l:
+            ck.disagreement("prql_to_tokens did not return its errors: %s" % str(l)[:200], dict(base, kind="panic", got=str(l)[:300]), None)
+            continue
+        for ei, e in enumerate(l["err"]):
+            want_tok = c["tok"] if ei == 0 and t["cls"] == "lexical" else None
+            bad, _ = check_message(e, {"1": c["src"]}, want_tok, c["off"] if want_tok is not None else None)
+            if e.get("span") is None:
+                bad.append(("lexer-error-without-span", ""))
+            if bad:
+                for b in bad:
+                    ck.stat("lex-oracle", "failed:" + b[0])
+                ck.disagreement("prql_to_tokens error %r: %s" % ((e.get("reason") or "")[:80], "; ".join("%s (%s)" % b for b in bad)[:300]),
+                                dict(base, kind="clauses", clauses=[b[0] for b in bad], details=[b[1] for b in bad], reason=e.get("reason"),
+                                     span=e.get("span"), location=e.get("location")), None)
+            else:
+                ck.stat("lex-oracle", "ok")
 
     # ---------------------------------------------------------------- 3. Span.v vs implementation on the real spans
     if model_ok:
@@ -402,7 +458,7 @@ def run():
                 if kk in seen:
                     continue
                 seen.add(kk)
-                exprs.append("composed_one [(%d, %s)] (Some (Span %d %d %d))" % (sp["source_id"], coq_codes(s), sp["start"], sp["end"], sp["source_id"]))
+                exprs.append("flat_composed (composed_one [(%d, %s)] (Some (Span %d %d %d)))" % (sp["source_id"], coq_codes(s), sp["start"], sp["end"], sp["source_id"]))
                 keys.append((s, sp, loc))
         cap = ck.n(700, 4000)
         if len(exprs) > cap:
@@ -415,16 +471,50 @@ def run():
             ck.coverage["model_eval_error"] = str(ex)[-400:]
         for (s, sp, loc), v in zip(keys, vals):
             ck.count("corr-composed", json.dumps([s, sp["start"], sp["end"]]))
-            if v == "Panic":
-                mv = "PANIC"
-            elif isinstance(v, tuple) and v[0] == "Ret" and isinstance(v[1], tuple) and v[1][0] == "Some":
-                x = v[1][1]
-                mv = {"start": [x[0], x[1]], "end": list(x[2])}
+            mv = model_composed(v)
+            iv = "PANIC" if loc == "PANIC" else (sp, loc)
+            if mv != iv:
+                ck.violation("Model/Span.v composed_one differs from the implementation for span %s: model %s, impl %s" % (sp, mv, iv),
+                             {"src": s, "span": sp, "model": str(mv), "impl": str(iv), "kind": "correspondence"})
+        # 3a' composed on arbitrary spans (harness c13compose: Error::new_simple + with_span -> ErrorMessages::from -> composed
+        # against SourceTree::new): in and out of bounds, reversed, ids inside and outside the tree (0 = std.prql), 1-3 files
+        trees, reqs, exprs, keys = [], [], [], []
+        for _ in range(ck.n(70, 500)):
+            files = ["".join(rng.choice(lc_alpha) for _ in range(rng.randint(0, 9))) for _ in range(rng.randint(1, 3))]
+            spans = []
+            for _ in range(8):
+                fid = rng.choice([0, 1, 1, 1, 2, 2, 3, 4])
+                ln = len(files[fid - 1]) if 1 <= fid <= len(files) else 6
+                a, b = rng.randint(0, ln + 2), rng.randint(0, ln + 2)
+                if a > b and rng.random() < 0.7:
+                    a, b = b, a
+                spans.append([a, b, fid])
+            reqs.append({"files": [["f%d.prql" % i, f] for i, f in enumerate(files)], "spans": spans})
+            for sp in spans:
+                exprs.append("flat_composed (composed_one (source_tree [%s]) (Some (Span %d %d %d)))" % ("; ".join(coq_codes(f) for f in files), sp[0], sp[1], sp[2]))
+                keys.append((files, sp))
+        real = [x for r in harness("c13compose", reqs) for x in (r.get("ok") or [])]
+        try:
+            vals = coq_eval(header, exprs)
+        except RuntimeError as ex:
+            vals = []
+            ck.coverage["model_eval_error"] = str(ex)[-400:]
+        if vals and len(real) != len(vals):
+            ck.violation("c13compose returned %d answers for %d spans" % (len(real), len(vals)), {"kind": "harness"}, no_input=True)
+        for (files, sp), v, r in zip(keys, vals, real):
+            ck.count("corr-composed-any", json.dumps([files, sp]))
+            mv = model_composed(v)
+            if "panic" in r:
+                iv = "PANIC"
+                ck.stat("corr-composed-any", "panic:" + ("reversed" if "Label start" in r["panic"].get("msg", "") else "out-of-bounds"))
             else:
-                mv = None
-            if mv != loc:
-                ck.violation("Model/Span.v composed_one differs from the implementation for span %s: model %s, impl %s" % (sp, mv, loc),
-                             {"src": s, "span": sp, "model": str(mv), "impl": str(loc), "kind": "correspondence"})
+                iv = (r["span"], r["location"])
+                ck.stat("corr-composed-any", "span-removed" if r["span"] is None else "located")
+                if r["display"] != (r["location"] is not None):
+                    ck.violation("composed: display %s but location %s for span %s" % (r["display"], r["location"], sp), {"files": files, "span": sp, "kind": "correspondence"})
+            if mv != iv:
+                ck.violation("Model/Span.v composed_one differs from ErrorMessages::composed for span %s of files %r: model %s, impl %s" % (sp, files, mv, iv),
+                             {"files": files, "span": sp, "model": str(mv), "impl": str(iv), "kind": "correspondence"})
         # 3b convert_lexer_error on sources whose first lexer error has a byte span known by construction
         lexc = [c for c in cases if tpls[c["ti"]]["cls"] == "lexical" and not c["lex_ok"] and "err" in c["lex"] and len(c["src"]) < 300]
         lexc = lexc[: ck.n(150, 1200)]
@@ -433,7 +523,7 @@ def run():
             s = c["src"]
             bs = len(s[:c["off"]].encode("utf-8"))
             be = bs + len(c["tok"].encode("utf-8"))
-            exprs.append("match convert_lexer_error %s %d %d 0 with Ret (sp, f) => Some (sp_start sp, sp_end sp, f) | _ => None end" % (coq_codes(s), bs, be))
+            exprs.append("flat_lexerr (prql_to_tokens_error %s %d %d)" % (coq_codes(s), bs, be))
         try:
             vals = coq_eval(header, exprs)
         except RuntimeError as ex:
@@ -442,17 +532,18 @@ def run():
         for c, v in zip(lexc, vals):
             e = c["lex"]["err"][0]
             ck.count("corr-lexer-span", c["src"])
-            real_sp = (e["span"]["start"], e["span"]["end"]) if e.get("span") else None
             m = re.match(r"^unexpected '(.*)'$", e["reason"], re.S)
             real_found = m.group(1) if m else ("" if "end of input" in e["reason"] else None)
-            if v == "None":
-                mv = None
-            else:
+            iv = (e.get("span"), e.get("location"), real_found)
+            if isinstance(v, tuple) and v[0] == "Ret":
                 x = v[1]
-                mv = ((x[0], x[1]), "".join(chr(o) for o in x[2]))
-            if mv != (real_sp, real_found):
-                ck.violation("Model/Span.v convert_lexer_error differs from the implementation on %r: model %s, impl %s" % (c["src"], mv, (real_sp, real_found)),
-                             {"src": c["src"], "model": str(mv), "impl": str((real_sp, real_found)), "kind": "correspondence"})
+                mc = model_composed(("Ret", (x[0], x[1])))
+                mv = (mc[0], mc[1], "".join(chr(o) for o in x[2]))
+            else:
+                mv = "PANIC" if v == "Panic" else None
+            if mv != iv:
+                ck.violation("Model/Span.v prql_to_tokens_error (convert_lexer_error + composed) differs from prql_to_tokens on %r: model %s, impl %s" % (c["src"], mv, iv),
+                             {"src": c["src"], "model": str(mv), "impl": str(iv), "kind": "correspondence"})
         # 3c map_span: the parser error's span is (start of token i, end of token j-1) of the lexer's byte spans,
         # with i the token that starts at the offending text
         parc = [c for c in cases if c["lex_ok"] and tpls[c["ti"]]["cls"] == "syntactic" and not tpls[c["ti"]].get("interp")
